@@ -12,10 +12,10 @@ by handlers, ``finally`` executions).
 """
 from vlib.symx import fork_int
 
-YIELD, RAISE, RETURN, SUB, TRYFIN, TRYEXC, END = range(7)
-NOPS = 7
-SEND, THROW, STOP, CLOSE = range(4)
-NACT = 4
+YIELD, RAISE, RETURN, SUB, TRYFIN, TRYEXC, END, TRANS = range(8)
+NOPS = 7  # TRANS is only used where a harness lists it explicitly
+SEND, THROW, STOP, CLOSE, SENDNONE = range(5)
+NACT = 4  # SENDNONE only when drive(..., nact=5)
 
 
 class Boom(Exception):
@@ -62,6 +62,13 @@ def interp(code, log, tag="p", maxdepth=2, msg_cmd="null", ops=ALL_OPS):
                     log.append(("finally", tag, pc))
                     r2 = yield Msg(msg_cmd, tag, pc, "in-finally")
                     log.append(("resp-fin", tag, pc, r2))
+            elif op == TRANS:
+                try:
+                    r = yield from block(level + 1)
+                    log.append(("try-done", tag, pc, r))
+                except Boom as e:
+                    log.append(("translate", tag, pc, e.args))
+                    raise Boom("translated", tag, pc) from None
             elif op == TRYEXC:
                 try:
                     r = yield from block(level + 1)
@@ -86,7 +93,7 @@ def exc_key(e):
     return (type(e).__name__, tuple(e.args))
 
 
-def drive(gen, script, vals, max_steps=None):
+def drive(gen, script, vals, max_steps=None, nact=NACT):
     """Run ``gen`` under the scripted driver.  Returns the trace (list)."""
     from bluesky.utils import RequestStop
 
@@ -102,7 +109,7 @@ def drive(gen, script, vals, max_steps=None):
     S = len(script) if max_steps is None else max_steps
     for j in range(S):
         trace.append(("msg", msg_key(m)))
-        a = fork_int(script[j], 0, NACT - 1)
+        a = fork_int(script[j], 0, nact - 1)
         try:
             if a == SEND:
                 m = gen.send(vals[j])
@@ -112,6 +119,8 @@ def drive(gen, script, vals, max_steps=None):
             elif a == STOP:
                 trace.append(("throw-stop", j))
                 m = gen.throw(RequestStop())
+            elif a == SENDNONE:
+                m = gen.send(None)
             else:
                 trace.append(("close", j))
                 gen.close()
